@@ -275,7 +275,19 @@ def k_derived(run, case):
              sample={"n": n, "derivations": hows, "source read before": aged})
 
 
-KINDS = {"grid": k_grid, "planar": k_planar, "general": k_general, "derived": k_derived}
+def k_cli(run, case):
+    """
+    --project_to_plane end to end through evo_traj, combined with the other processing options
+    (down-sampling, motion filter, merge, alignment ...): the exported trajectories must be
+    projected (C15's workload executor and export oracle: zero out-of-plane coordinate, in-plane
+    coordinates of the processed poses, orientations about the normal).
+    """
+    from vmon.props import C15
+    C15.k_cli(run, case)
+    run.hit("evo_traj runs with --project_to_plane judged")
+
+
+KINDS = {"grid": k_grid, "planar": k_planar, "general": k_general, "derived": k_derived, "cli": k_cli}
 
 
 def main(run):
@@ -291,6 +303,9 @@ def main(run):
         k_general(run, run.case("general", i))
     for i in run.mine(n // 3):
         k_derived(run, run.case("derived", i))
-    run.need("projections of objects derived from one source judged", "out-of-plane coordinate exactly zero", "in-plane coordinates unchanged (bitwise)",
+    for i in run.mine({"quick": 90, "thorough": 2000}[run.tier]):
+        k_cli(run, run.case("cli", i, force={"plane": True, "downsample": i % 4 == 0, "motion_filter": i % 4 == 1,
+                                             "merge": i % 4 == 2}))
+    run.need("evo_traj runs with --project_to_plane judged", "projections of objects derived from one source judged", "out-of-plane coordinate exactly zero", "in-plane coordinates unchanged (bitwise)",
              "orientation is a pure rotation about the plane normal", "planar pose left unchanged",
              "second projection refused", "project keeps timestamps")
